@@ -113,6 +113,10 @@ class C19:
             res.fail("%s|freeze-raised|%s|%s" % (sig, type(e).__name__, xdis_frame(tb)), "freeze() raised %s: %s" % (type(e).__name__, e))
             return res
         if isinstance(frozen, str):
+            if any(ord(ch) > 255 for ch in frozen):
+                res.fail("%s|frozen-table-not-bytes" % sig, "mapping %s froze to a table holding %r: not a byte" % (
+                    want[:6], [ord(ch) for ch in frozen if ord(ch) > 255][:4]))
+                return res
             fb = frozen.encode("latin-1")
         elif isinstance(frozen, (bytes, bytearray)):
             fb = bytes(frozen)
